@@ -586,6 +586,9 @@ func lemmaHandOverThenCreate(rt *esdtNFTCreateRoleTransfer, cr *esdtNFTCreate, o
 //@   ensures[C06] err == nil && senderSide ==> onlyRcpt(out, a3) && out.GasRemaining + fwdGas(out, a3) <= vmInput.GasProvided
 //@   ensures[C06] err == nil && !senderSide ==> onlyRcpt(out, rcv) && out.GasRemaining + fwdGas(out, rcv) <= vmInput.GasProvided
 //@   ensures[C03] err == nil && !senderSide ==> isNil(acntSnd)
+//@   ensures[C03] err == nil && !readFailed && !senderSide && !vmInput.ReturnCallAfterError && rcv != ESDTSC() && !frozenProps(dProps(a3)) ==> frozen(St, rcv, Knft(tok, dMNonce(a3))) == frozen(old(St), rcv, Knft(tok, dMNonce(a3)))
+//@   ensures[C03,kf:F12] err == nil && !readFailed && !senderSide && (vmInput.ReturnCallAfterError || rcv == ESDTSC()) ==> frozen(St, rcv, Knft(tok, dMNonce(a3))) == frozen(old(St), rcv, Knft(tok, dMNonce(a3)))
+//@   ensures[C03] err == nil && !readFailed && senderSide && shardOf(a3) == selfShard && !vmInput.ReturnCallAfterError && a3 != ESDTSC() && snd != ESDTSC() ==> frozen(St, a3, Knft(tok, dMNonce(old0))) == frozen(old(St), a3, Knft(tok, dMNonce(old0)))
 //@   ensures[C09] err == nil && senderSide ==> len(a3) == len(snd) && a3 != snd && shardOf(a3) != 4294967295
 //@   ensures[C09] err == nil && senderSide && shardOf(a3) == selfShard && mustVerify(vmInput, 4) ==> payable(a3)
 //@   ensures[C09] err == nil && !senderSide && mustVerify(vmInput, 4) ==> payable(rcv)
@@ -740,6 +743,8 @@ func lemmaHandOverThenCreate(rt *esdtNFTCreateRoleTransfer, cr *esdtNFTCreate, o
 //@   loop 0 invariant i <= numOfTransfers && WFvalues(St) && failed == old(failed) && (old(readFailed) ==> readFailed)
 //@   loop 0 invariant forall(a, addr, k, bseq, St[a][k] != old(St)[a][k] ==> a == rcv && isTokKey(k))
 //@   loop 0 invariant St != old(St) && mustVerify(vmInput, 3 * numOfTransfers + 1) ==> payable(rcv)
+//@   loop 0 assert itemTag(i - 1)
+//@   loop 0 invariant !readFailed ==> propsKept(St, old(St), rcv, vmInput, i)
 //@   loop 0 invariant vmOutput.GasRemaining == vmInput.GasProvided && vmOutput.OutputAccounts == nil && vmOutput.ReturnCode == 0 && len(vmOutput.Logs) == numOfTransfers
 //@   ensures[C11] shape(out, err)
 //@   ensures[C17] err == nil ==> failed == old(failed)
@@ -749,6 +754,7 @@ func lemmaHandOverThenCreate(rt *esdtNFTCreateRoleTransfer, cr *esdtNFTCreate, o
 //@   ensures[C01,C10] err == nil && senderSide && shardOf(seq(vmInput.Arguments[0])) != selfShard ==> has(out.OutputAccounts, seq(vmInput.Arguments[0])) && forall(j, int, trigger(warg(seq(out.OutputAccounts[seq(vmInput.Arguments[0])].OutputTransfers[0].Data), 3 + 3 * j)), 0 <= j && j < beval(seq(vmInput.Arguments[1])) % 18446744073709551616 ==> warg(seq(out.OutputAccounts[seq(vmInput.Arguments[0])].OutputTransfers[0].Data), 1 + 3 * j) == seq(vmInput.Arguments[2 + 3 * j]) && (warg(seq(out.OutputAccounts[seq(vmInput.Arguments[0])].OutputTransfers[0].Data), 3 + 3 * j) == be(beval(seq(vmInput.Arguments[4 + 3 * j]))) || dVal(warg(seq(out.OutputAccounts[seq(vmInput.Arguments[0])].OutputTransfers[0].Data), 3 + 3 * j)) == beval(seq(vmInput.Arguments[4 + 3 * j]))))
 //@   ensures[C16] err == nil && senderSide ==> out.GasRemaining + fwdGas(out, seq(vmInput.Arguments[0])) <= vmInput.GasProvided - (beval(seq(vmInput.Arguments[1])) % 18446744073709551616) * e.funcGasCost
 //@   ensures[C16] err == nil && senderSide && shardOf(seq(vmInput.Arguments[0])) != selfShard ==> vmInput.GasProvided - (out.GasRemaining + fwdGas(out, seq(vmInput.Arguments[0]))) == (beval(seq(vmInput.Arguments[1])) % 18446744073709551616) * e.funcGasCost + e.gasConfig.DataCopyPerByte * msum(wlist(seq(out.OutputAccounts[seq(vmInput.Arguments[0])].OutputTransfers[0].Data)), beval(seq(vmInput.Arguments[1])) % 18446744073709551616)
+//@   ensures[C03,C04] err == nil && !readFailed && !senderSide ==> propsKept(St, old(St), rcv, vmInput, nD)
 //@   ensures[C10] err != nil && !senderSide && !failed && !readFailed && vmInput != nil && vmInput.CallValue != nil && bigval(vmInput.CallValue) == 0 && isNil(acntSnd) && !isNil(acntDst) && !isErr(err, ErrInvalidArguments) ==> isErr(err, ErrAccountNotPayable) || isErr(err, ErrESDTIsFrozenForAccount) || isErr(err, ErrESDTTokenIsPaused) || isErr(err, ErrWrongNFTOnDestination) || isErr(err, ErrOnlyFungibleTokensHaveBalanceTransfer)
 //@   ensures[C01,C10] !senderSide && isErr(err, ErrInvalidArguments) && !failed && !readFailed ==> nD == 0 || nD > len(vmInput.Arguments) || len(vmInput.Arguments) < 3 * nD + 1 || len(vmInput.Arguments) < 2
 //@   ensures[C09] err == nil && !senderSide && St != old(St) && mustVerify(vmInput, 3 * nD + 1) ==> payable(rcv)
